@@ -444,6 +444,7 @@ func (s *UDPNATRelay) relayServerConnToNatConnGeneric(ctx context.Context, uplin
 	)
 
 	for queuedPacket := range uplink.natConnSendCh {
+		verifhook.At("relay.uplink.beforePack", s, uplink.clientAddrPort)
 		destAddrPort, packetStart, packetLength, err = uplink.natConnPacker.PackInPlace(ctx, queuedPacket.buf, queuedPacket.targetAddr, queuedPacket.start, queuedPacket.length)
 		if err != nil {
 			uplink.logger.Warn("Failed to pack packet for natConn",
